@@ -41,7 +41,8 @@ class Field:
         self.generic = False      # declared as the type parameter `T`
         # how the declared type is *spelled* in Rust when it is nil-capable without being literally `Option<..>`:
         # 'generic' (type parameter instantiated at Option<..>), 'alias' (`type A = Option<..>`), 'newtype'
-        # (crate::rt::NilOpt, a hand-written Encode/Decode overriding is_nil/nil; model type opt(u16)).  The model
+        # (crate::rt::NilOpt, a hand-written Encode/Decode overriding is_nil/nil; model type opt(u16)), 'core' / 'std'
+        # (path-qualified core::option::Option<..> / std::option::Option<..>, still syntactically an Option).  The model
         # sees the same `opt(..)` field type in all cases (same is_nil / nil semantics under the default codec).
         self.spell = spell
 
@@ -65,6 +66,8 @@ def t_en(variants, enc="d", tag=None, index_only=False):
 
 def spell_ok(f, spell):
     """may the declared type of field f be spelled that way?"""
+    if spell in ("core", "std"):          # core::option::Option<..> / std::option::Option<..>: any codec that sits on an Option
+        return (not f.skip) and f.ty.kind == "opt" and f.codec in ("d", "b", "p")
     if f.skip or f.codec != "d" or f.ty.kind != "opt" or has_lt(f.ty) or contains_codec_blob(f.ty): return False
     if spell == "newtype": return f.ty.e.kind == "int" and f.ty.e.k == "u16"
     return True
@@ -89,7 +92,9 @@ def proto(ty):
 
 def proto_field(f):
     ix = "s" if f.skip else ("b" if f.is_b else "n") + str(f.idx)
-    return "f(" + ",".join([ix, ptag(f.tag), f.codec, proto(f.ty)]) + ")"
+    # codec 'p' = a custom module WITHOUT nil functions on Option<u16> (crate::rt::plainopt): for a field spelled as an Option
+    # the macro falls back on Option::is_none / Some(None), i.e. exactly the semantics of the default codec
+    return "f(" + ",".join([ix, ptag(f.tag), "d" if f.codec == "p" else f.codec, proto(f.ty)]) + ")"
 
 
 def proto_var(v):
@@ -478,7 +483,11 @@ class SGen:
             ty, codec = self.field_type(depth)
             f = Field(idx[i], ty, tag=self.tag(0.2), codec=codec, style=r.randrange(4))
             f.is_b = needs_b(ty) or r.random() < 0.15
-            if r.random() < 0.2:
+            if ty.kind == "opt" and r.random() < 0.15:
+                if codec == "d" and r.random() < 0.4 and not needs_b(ty):
+                    f.ty = ty = t_opt(t_int("u16")); f.codec = "p"; f.is_b = False
+                f.spell = r.choice(["core", "std", None]) if f.codec == "p" else r.choice(["core", "std"])
+            elif r.random() < 0.2:
                 sp = r.choice(["generic", "alias", "alias", "newtype"])
                 if sp == "newtype" and ty.kind == "opt" and codec == "d" and r.random() < 0.5: f.ty = ty = t_opt(t_int("u16"))
                 if spell_ok(f, sp): f.spell = sp
@@ -602,6 +611,17 @@ def core_schemas(rng):
             S.append(t_en([Variant(0, "p", [F(0, t_int("u8")), F(1, o16(), spell=sp)], enc=enc),
                            Variant(1, "n", [F(0, o16(), spell=sp), F(3, t_bool())], enc=enc)]))
     S.append(t_st([F(0, t_int("u8")), F(1, t_opt(t_vec(t_int("u8"))), spell="generic"), F(2, t_opt(t_opt(t_int("u8"))), spell="alias")]))
+    # path-qualified Option (`core::option::Option<..>`, `std::option::Option<..>`): alone, under with = "minicbor::bytes", and under a
+    # custom codec module without nil functions; None in trailing and non-trailing position; both encodings; structs and variants
+    for sp in ("core", "std"):
+        for enc in ("d", "m"):
+            S.append(t_st([F(0, t_int("u8")), F(1, t_opt(t_blob("vecu8")), codec="b", spell=sp), F(2, o16(), codec="p", spell=sp)], enc=enc))
+            S.append(t_st([F(0, t_opt(t_blob("sliceu8")), codec="b", spell=sp), F(1, o16(), codec="p", spell=sp), F(2, o16(), spell=sp), F(3, t_int("u8"))],
+                          enc=enc, shape="p"))
+            S.append(t_st([F(0, o16(), codec="p", spell=sp, style=1), F(4, t_opt(t_blob("cowu8")), codec="b", spell=sp, style=1, is_b=True),
+                           F(2, t_opt(t_text("str")), spell=sp)], enc=enc))
+            S.append(t_en([Variant(3, "n", [F(0, o16(), codec="p", spell=sp)], enc=enc),
+                           Variant(1, "p", [F(0, t_opt(t_blob("vecu8")), codec="b", spell=sp), F(1, t_int("u8")), F(2, o16(), codec="p")], enc=enc)]))
     # nesting
     inner = t_st([F(0, t_int("u8")), F(1, o8())])
     e1 = t_en([Variant(0), Variant(1, "p", [F(0, t_int("u8"))])])
@@ -748,6 +768,9 @@ def apply_edit(sg, root, retired):
             used = set(live) | ret
             if kind == "add_new":
                 idx = (max(used) + 1 if used else 0) + r.choice([0, 0, 1, 3])
+                if enc == "m" and r.random() < 0.25:
+                    big = [i for i in (255, 256, 65535, 65536, 4294967295) if i not in used and i >= idx]
+                    if big: idx = r.choice(big)
                 fields.insert(r.randrange(len(fields) + 1), new_opt_field(sg, idx))
                 return new, f"add optional field at new index {idx}"
             if kind == "add_gap":
@@ -766,6 +789,10 @@ def apply_edit(sg, root, retired):
             e = r.choice(oenums)
             used = {v.idx for v in e.variants}
             idx = max(used) + 1 + r.choice([0, 0, 2])
+            if r.random() < 0.25:
+                big = [i for i in (255, 256, 65535, 65536, 4294967295) if i not in used and i >= idx]
+                if big: idx = r.choice(big)
+            if idx > 4294967295: return None
             if e.index_only:
                 e.variants.append(Variant(idx))
             else:
@@ -862,6 +889,31 @@ def core_chains():
     b = t_st([F(0, t_int("u8")), F(1, t_opt(t_int("u8")), tag=5), F(2, t_int("u8"))])
     c = t_st([F(0, t_int("u8")), F(1, t_opt(t_int("u8")), tag=5), F(2, t_int("u8")), F(3, t_int("u32"), codec="x", tag=6)])
     out.append(Chain([a, b, c], ["base", "add optional field at gap index 1", "add optional field at new index 3"]))
+    # indices known only to the newer version that do not fit a narrower integer than the older version's own indices need
+    # (255 / 65535 as controls, 256 / 65536 / 2^32-1 across the u8 / u16 / u32 head boundaries): regular and index_only enums
+    # in an optional field, and optional fields of map-encoded structs and variants; the old version's indices stay small
+    BIG = [[255, 256], [65535, 65536], [4294967295]]
+    for grp in BIG:
+        # regular enum (unit and tuple variants) under Option, with a sibling field after it
+        def reg(extra):
+            vs = [Variant(0), Variant(1, "p", [F(0, t_int("u8"))])]
+            for j, i in enumerate(extra):
+                vs.append(Variant(i) if j % 2 == 0 else Variant(i, "n", [F(0, t_opt(t_int("u16")))], enc="m"))
+            return t_en(vs)
+        for enc in ("d", "m"):
+            vers = [t_st([F(0, t_opt(reg(grp[:k]))), F(1, t_int("u8"))], enc=enc) for k in range(len(grp) + 1)]
+            out.append(Chain(vers, ["base"] + [f"add variant {i} to an enum used as an optional field" for i in grp]))
+            vers = [t_st([F(0, t_opt(t_en([Variant(0), Variant(1)] + [Variant(i) for i in grp[:k]], index_only=True))), F(1, t_text("string"))], enc=enc)
+                    for k in range(len(grp) + 1)]
+            out.append(Chain(vers, ["base"] + [f"add variant {i} to an enum used as an optional field" for i in grp]))
+        # map-encoded struct: optional fields at the large indices
+        vers = [t_st([F(0, t_int("u8")), F(1, t_opt(t_text("string")))] + [F(i, t_opt(t_int("u16")), tag=(7 if j else None)) for j, i in enumerate(grp[:k])], enc="m")
+                for k in range(len(grp) + 1)]
+        out.append(Chain(vers, ["base"] + [f"add optional field at new index {i}" for i in grp]))
+        # map-encoded variant body inside a mandatory enum field, and a nested map-encoded struct under Vec
+        def body(k): return [F(0, t_int("u8"))] + [F(i, t_opt(t_bool())) for i in grp[:k]]
+        vers = [t_st([F(0, t_en([Variant(0, "n", body(k), enc="m"), Variant(1)])), F(1, t_vec(t_st(body(k), enc="m")))]) for k in range(len(grp) + 1)]
+        out.append(Chain(vers, ["base"] + [f"add optional field at new index {i}" for i in grp]))
     # the example of the documentation: regular enum under Option, unit variant -> tuple variant, new struct variant
     e1 = t_en([Variant(0)])
     e2 = t_en([Variant(0, "p", [F(0, t_opt(t_int("i64")))])])
@@ -874,6 +926,29 @@ def core_chains():
     v6 = t_st([F(0, t_int("u32")), F(2, t_opt(t_bool())), F(3, t_opt(e3))])
     out.append(Chain([v1, v2, v3, v4, v5, v6], ["base", "add optional field at new index 2", "drop optional field 1", "add optional field at new index 3",
                                                 "unit variant 0 becomes a p variant with optional fields", "add variant 1 to an enum used as an optional field"]))
+    return out
+
+
+def variant_sweep(ty, vg, base):
+    """values derived from `base` in which every enum reachable through struct fields / Option takes each of its variants once
+    (so that a variant only the newer version knows is actually written)."""
+    out = []
+    def sweep(t, v, rebuild):
+        if t.kind == "opt":
+            inner = v[1] if v is not None else vg.value(t.e, 2, True, True)
+            sweep(t.e, inner, lambda x: rebuild(("so", x)))
+        elif t.kind == "vec":
+            if v[1]: sweep(t.e, v[1][0], lambda x: rebuild(("l", [x] + list(v[1][1:]))))
+            else: sweep(t.e, vg.value(t.e, 2, True, True), lambda x: rebuild(("l", [x])))
+        elif t.kind == "st":
+            for i, f in enumerate(t.fields):
+                if f.skip or f.codec == "x": continue
+                sweep(f.ty, v[1][i], lambda x, i=i: rebuild(("r", list(v[1][:i]) + [x] + list(v[1][i + 1:]))))
+        elif t.kind == "en":
+            for k, var in enumerate(t.variants):
+                fv = [vg.field_value(f, 2, True, True) for f in var.fields]
+                out.append(rebuild(("e", k, fv)))
+    sweep(ty, base, lambda x: x)
     return out
 
 
@@ -985,6 +1060,9 @@ class Emitter:
         if f.codec == "b":
             parts.append('with = "minicbor::bytes"' if f.style % 2 == 0 else
                          'encode_with = "minicbor::bytes::encode", decode_with = "minicbor::bytes::decode", cbor_len = "minicbor::bytes::cbor_len"')
+        if f.codec == "p":
+            parts.append('with = "crate::rt::plainopt"' if f.style % 2 == 0 else
+                         'encode_with = "crate::rt::plainopt::encode", decode_with = "crate::rt::plainopt::decode", cbor_len = "crate::rt::plainopt::cbor_len"')
         if f.codec == "x":
             parts.append('with = "crate::nilu", has_nil' if f.style % 2 == 0 else
                          'encode_with = "crate::nilu::encode", is_nil = "crate::nilu::is_nil", decode_with = "crate::nilu::decode", nil = "crate::nilu::nil", cbor_len = "crate::nilu::cbor_len"')
@@ -996,6 +1074,7 @@ class Emitter:
         if f.generic: return "T"
         if f.spell == "alias": return self.alias_of(f.ty)
         if f.spell == "newtype": return "crate::rt::NilOpt"
+        if f.spell in ("core", "std"): return f"{f.spell}::option::Option<{self.rty(f.ty.e)}>"
         return self.rty(f.ty)
 
     def alias_of(self, ty):
@@ -1192,7 +1271,9 @@ def build(seed, tier, batch=0):
         for v in ch.versions:
             fix_b(v)
             names.append(em.top(v))
-            vals.append(vg.struct_values(v, sz["chain_vals"]))
+            vv = vg.struct_values(v, sz["chain_vals"])
+            vv += variant_sweep(v, vg, vv[0])[:12] if vv else []
+            vals.append(vv)
         c.chains.append((ch, names, vals))
     c.source = em.source()
     c.ntypes = em.count
